@@ -33,7 +33,7 @@ def gen(rng, passes):
         pin = 2 + i
         cb = rng.random() < 0.7
         if cb:
-            L += [f"def on_{i}():", f"    mon.write(\"click:{i}\")", ""]
+            L += [f"def on_{i}():", f"    mon.write(\"click:{i}\")"] + ([f"    sleep({rng.choice([1, 3, 25])})"] if rng.random() < 0.3 else []) + [""]   # (a handler may block)
     shared = nb == 2 and "def on_0():" in L and "def on_1():" in L and rng.random() < 0.4
     tied = nb == 2 and rng.random() < 0.25     # two Button objects wired to ONE pin (two handlers for one physical key)
     for i in range(nb):
@@ -107,11 +107,14 @@ def gen(rng, passes):
             vals = [0] * len(vals)   # never an echo: the fallback is this sensor's own (400 cm), not another sensor's reading
         elif i == 0 and nus == 2:
             vals[0] = 583            # the first sensor starts with a good reading
+        long_gap = rng.random() < 0.15
+        if long_gap:
+            vals = [rng.choice([583, 1166, 5830])] + [0] * (len(vals) - 1)   # one good echo, then silence for a long time
         tapes["P"][str(echo)] = vals
         via_helper = rng.random() < 0.2
         if via_helper:
             L += [f"def probe_us{i}():", f"    return us{i}.measure_distance()", ""]
-        info["us"].append({"name": f"us{i}", "trig": trig, "echo": echo, "vals": vals, "via_helper": via_helper})
+        info["us"].append({"name": f"us{i}", "trig": trig, "echo": echo, "vals": vals, "via_helper": via_helper, "long_gap": long_gap})
     if not (nb or npot or nus):
         return gen(rng, passes)
     # optional reads in setup
@@ -170,7 +173,7 @@ def gen(rng, passes):
             # reads whose value is thrown away or only tested: still one conversion each (the throw-away read before the real one,
             # `reading or default`); only the number of conversions is judged here
             stmts = rng.sample([f"{p['name']}.read()", f"spare = {p['name']}.read() or 1", f"{p['name']}.read()\n{p['name']}.read()", f"if {p['name']}.read() > 2000:\n    mon.write(\"never\")",
-                                f"gate = {p['name']}.read() > 5 and {p['name']}.read() >= 0"], rng.choice([1, 2]))
+                                f"gate = {p['name']}.read() > 5 and {p['name']}.read() >= 0", f"dd = 0\ndd = {p['name']}.read()\ndd = {p['name']}.read()"], rng.choice([1, 2]))
             for st in stmts:
                 n_reads = st.count(".read()")
                 if "and" in st:
@@ -219,7 +222,7 @@ def gen(rng, passes):
             if rng.random() < 0.5:
                 body.append(f"{pre}sleep({rng.choice([0, 1, 30, 59, 60, 61, 200])})")
     rng.shuffle(body) if False else None
-    body.append(f"sleep({rng.choice([0, 1, 30, 59, 60, 61, 200])})")
+    body.append(f"sleep({rng.choice([0, 1, 30, 59, 60, 61, 200]) if not any(u.get('long_gap') for u in info['us']) else rng.choice([2500, 5000, 61])})")
     L += ["    " + b for b in body]
     return "\n".join(L) + "\n", tapes, info
 
